@@ -54,6 +54,21 @@ def plan(tier, seed):
 
 
 def gen_definition(rng):
+    if rng.random() < 0.12:
+        # a large enum: many members, numbered densely from 0 (what long generated enums look like), a few aliases, or with a
+        # gap / starting at 1 / with one negative member
+        n = rng.choice([31, 32, 33, 40, 64, 300])
+        shape = rng.choice(["dense", "dense", "alias", "gap", "from1", "neg"])
+        vals = [(f"V{i}", i) for i in range(n)]
+        if shape == "alias":
+            vals += [(f"A{i}", rng.randrange(n)) for i in range(4)] + [("AZ", 0)]
+        elif shape == "gap":
+            vals = [(nm, v if v < n // 2 else v + 1) for nm, v in vals]
+        elif shape == "from1":
+            vals = [(nm, v + 1) for nm, v in vals]
+        elif shape == "neg":
+            vals.append(("NEG", -1))
+        return vals
     n = rng.randint(1, 12)
     style = rng.random()
     if style < 0.6:
@@ -317,7 +332,9 @@ def run_enum(E, H, attrs, names_by_number, canon_name, rng, res: Result, w):
     declared = sorted(names_by_number)
     dc = def_class([n for n, ns in names_by_number.items() for _ in ns])
     und = []
-    for c in (max(declared) + 1, min(declared) - 1, 2**31 - 1, -(2**31), rng.randint(-(2**31), 2**31 - 1), rng.randint(-1000, 1000)):
+    n_decl = len(declared)
+    for c in (max(declared) + 1, min(declared) - 1, 2**31 - 1, -(2**31), rng.randint(-(2**31), 2**31 - 1), rng.randint(-1000, 1000),
+              -1, -n_decl, -n_decl - 1, -rng.randint(1, max(1, n_decl)), n_decl, 2 * n_decl):
         if c not in declared and -(2**31) <= c <= 2**31 - 1 and c not in und:
             und.append(c)
     probes = declared + und
